@@ -99,6 +99,9 @@ structure Sub (α : Type) where
   rest : List (Diff α)
   /-- the parked `recv()` future is registered in the channel's waiter list -/
   waiting : Bool
+  /-- ghost (written, never read): the subscription snapshot with every delivered diff applied strictly;
+      `none` once a delivered diff was not applicable -/
+  replica : Option (List α)
   deriving Repr
 
 structure Txn (α : Type) where
@@ -158,7 +161,8 @@ def OV.direct {α} (s : OV α) (op : VOp α) : Option (OV α × Ret α × List N
 
 /-- `ObservableVector::subscribe` (vector.rs:66-69): snapshot + receiver positioned at the tail -/
 def OV.subscribe {α} (s : OV α) (batched : Bool) : OV α × Nat × List α :=
-  ({ s with subs := s.subs ++ [{ alive := true, batched, next := s.log.length, rest := [], waiting := false }] },
+  ({ s with subs := s.subs ++ [{ alive := true, batched, next := s.log.length, rest := [], waiting := false,
+                                   replica := some s.vals }] },
    s.subs.length, s.vals)
 
 def OV.dropSub {α} (s : OV α) (i : Nat) : OV α :=
@@ -353,6 +357,11 @@ def OV.poll {α} (s : OV α) (i : Nat) : Option (Item α × OV α) :=
   | some r =>
     if !r.alive then none else
     let (it, r') := if r.batched then pollBatched s.B s.log (!s.alive) r else pollPlain s.B s.log (!s.alive) r
-    some (it, { s with subs := s.subs.set i r' })
+    -- ghost: replay what was delivered
+    let rep' := match it with
+      | .one d => r'.replica.bind (applyAll [d])
+      | .batch ds => r'.replica.bind (applyAll ds)
+      | _ => r'.replica
+    some (it, { s with subs := s.subs.set i { r' with replica := rep' } })
 
 end EV
